@@ -2264,7 +2264,8 @@ impl<T: ArrayValue> Array<T> {
                 .map_err(|e| env.error(format!("Cannot get max index of an empty array{e}")));
         }
         if self.meta.is_sorted_up() {
-            return Ok(0.0);
+            // The last of the largest rows is the last row
+            return Ok((self.row_count() - 1) as f64);
         }
         let index = self
             .row_slices()
